@@ -19,16 +19,19 @@ C1 == {n_sel_a, <<49,32,111,102,32,115,101,108,95,42>>, <<97,108,108,32,111,102,
 C2 == {n_notepad, n_notepad \o <<32,111,114,32>> \o n_android, <<49,32,111,102,32,110,111,116,42>>, <<97,110,121,32,111,102,32,42,100>>}
 Shapes == {[names |-> F1, conds |-> <<c>>] : c \in C1} \cup {[names |-> F2, conds |-> <<c>>] : c \in C2}
           \cup {[names |-> F1, conds |-> <<n_sel_a, <<49,32,111,102,32,95,42>>>>]}
-Rules == {[names |-> s.names, conds |-> s.conds, uid |-> u, title |-> t, fname |-> f, dir |-> d] :
-            s \in Shapes, u \in 0..2, t \in 1..2, f \in 1..2, d \in 1..2}
+\* body: what every detection of the rule is written as - a map, a list of maps (nested detections), a list of keywords
+Rules == {[names |-> s.names, conds |-> s.conds, uid |-> u, title |-> t, fname |-> f, dir |-> d, body |-> b] :
+            s \in Shapes, u \in 0..2, t \in 1..2, f \in 1..2, d \in 1..2, b \in {"map", "maps", "keywords"}}
 AllV == {"dangling_detection", "dangling_condition", "identifier_uniqueness", "duplicate_title", "duplicate_filename"}
 VSets == {AllV, {}} \cup {{v} : v \in AllV} \cup {AllV \ {v} : v \in {"dangling_detection", "duplicate_title"}}
 Excls == {{}, {<<"dangling_detection", 1>>}, {<<"identifier_uniqueness", 1>>, <<"duplicate_title", 2>>}, {<<"dangling_condition", 2>>, <<"duplicate_filename", 1>>},
+          \* two entries for the same rule id
+          {<<"dangling_detection", 1>>, <<"duplicate_title", 1>>, <<"identifier_uniqueness", 1>>},
           \* entries for the rules WITHOUT identifier (key null in the table)
           {<<"dangling_detection", 0>>, <<"duplicate_title", 0>>}, {<<"dangling_condition", 0>>, <<"duplicate_filename", 0>>, <<"dangling_detection", 1>>}}
-N == IF Quick THEN 500 ELSE 8000
+N == IF Quick THEN 400 ELSE 8000
 Colls == {<<r>> : r \in RandomSubset(60, Rules)} \cup RandomSubset(N, [1..2 -> Rules]) \cup RandomSubset(N, [1..3 -> Rules])
-Cases == {[coll |-> c, V |-> SetToSeq(v), excl |-> SetToSeq(e)] : c \in Colls, v \in RandomSubset(3, VSets) \cup {AllV}, e \in RandomSubset(3, Excls)}
+Cases == {[coll |-> c, V |-> SetToSeq(v), excl |-> SetToSeq(e)] : c \in Colls, v \in RandomSubset(3, VSets) \cup {AllV}, e \in RandomSubset(3, Excls) \cup {{<<"dangling_detection", 1>>, <<"duplicate_title", 1>>, <<"identifier_uniqueness", 1>>}}}
 ASSUME LET S == SetToSeq(Cases) IN ndJsonSerialize(IOEnv.VERIF_OUT, [i \in 1..Len(S) |-> [id |-> i] @@ S[i]])
 Init == x = 0
 Next == UNCHANGED x
